@@ -802,8 +802,10 @@ def eval_lazy(case):
     out = []
     table = probe_table(cfg, seed)
     want = fingerprint(CryptContext(**cfg), table, seed)
-    gate = env.FailAt(lambda **kw: kw, k, RuntimeError("injected onload fault"))
-    lazy = LazyCryptContext(onload=gate, **cfg)
+    # (the configuration comes FROM the callback: the keywords given to the constructor are only its arguments, so a
+    #  callback that is skipped, or run on other arguments, after the failed attempt shows in the loaded context)
+    gate = env.FailAt(lambda **kw: dict(cfg) if kw == {"token": "c10"} else {"schemes": ["des_crypt"]}, k, RuntimeError("injected onload fault"))
+    lazy = LazyCryptContext(onload=gate, token="c10")
     results = []
     for attempt in range(k + 1):
         results.append(P.call(lambda: lazy.schemes()))
